@@ -262,7 +262,9 @@ def judge(c):
         c.fail.append(("tree-differs", ""))
     if a["ncom"] != b["ncom"] or a["com"] != b["com"]:
         c.fail.append(("comment-lost-or-changed", "%s -> %s comments" % (a["ncom"], b["ncom"])))
-    elif pn_runs(a["runs"]) == pn_runs(b["runs"]):
+    elif a["runs"] == b["runs"]:
+        # (import runs unchanged: sorting a run legitimately reorders its comments; the runs themselves are
+        # compared with the model's sortImports below, comments included)
         if a["ordered"] != b["ordered"]:
             c.fail.append(("comment-order-changed", ""))
         elif a["anchors"] != b["anchors"]:
@@ -382,8 +384,7 @@ def run(ctx):
             ctx.corr["lines"] += len(mops)
             for (c, what, k, want), got, op in zip(back, ml, mops):
                 if what == "sort":
-                    proj = lambda r: [x.rsplit(".", 1)[0] for x in r.split(",")] if r not in ("-", "<missing>") else r
-                    if proj(got) != proj(want):
+                    if got != want:
                         # the real SortImports (through FormatCode) and the model's sortImports disagree on this run
                         c.fail.append(("imports-differ-from-sorted-source-run", "run %d: source %s formatted %s" % (k, c.runs[0][k], c.runs[1][k] if k < len(c.runs[1]) else None)))
                         ctx.corr["diffs"] += 1
@@ -487,7 +488,8 @@ def run(ctx):
             toks = [x.split(":", 2) for x in t.split()[1:]]
             toks = [(int(o), int(n), tt) for o, n, tt in toks]
             m = re.search(r"c\d+", s.meta["edit"]["text"])
-            off = len(s.src[: s.src.find(m.group(0) if m else s.meta["edit"]["text"])].encode())
+            mm = re.search(r"\b%s\b" % m.group(0), s.src) if m else None
+            off = len(s.src[: (mm.start() if mm else 0)].encode())
             prev, nxt = "BOF", "EOF"
             for (o, n, tt) in toks:
                 if o < off:
